@@ -10,13 +10,6 @@ import PoseVerif.Props.C01
 namespace PoseVerif.Props.C02
 open PoseVerif
 
-/-- the file `docs/specs/v0.2.md` describes for this content (`fps` = the float32 pattern of the frame rate):
-    the header (`specHeader`: version, width, height, depth, component count, components — see `Proofs/Spec.lean`), then the body -/
-def specFile (p : Pose) (fps : F32) : Bytes :=
-  specHeader p.header v02bits ++
-  putF32 fps ++ putU32 p.body.frames ++ putU16 p.body.people ++
-  p.body.data.flatMap putF32 ++ p.body.conf.flatMap putF32
-
 /-- Writer direction: whatever `Pose.write` produces is exactly the documented layout. -/
 theorem write_layout (p : Pose) (b : Bytes) (h : p.write? = some b) :
     ∃ w, p.body.fps.toF32? = some w ∧ b = specFile p w := by
